@@ -8,7 +8,7 @@ rmdir "$wt"
 git -C /repo worktree add -q --detach "$wt" "${MUT_BASE:-HEAD}" || exit 2
 VERIF_ALT_OUT=$(mktemp -d /tmp/verif-alt-XXXXXX); export VERIF_ALT_OUT  # private: several trials may run side by side
 trap 'git -C /repo worktree remove --force "$wt" >/dev/null 2>&1; rm -rf "$VERIF_ALT_OUT"' EXIT
-if ! git -C "$wt" apply "$patch"; then echo "patch does not apply"; exit 2; fi
+if ! git -C "$wt" apply "$patch" 2>/dev/null; then ( cd "$wt" && git apply --3way "$patch" >/dev/null 2>&1 && git reset -q ) || { echo "patch does not apply (not even three-way)"; exit 2; }; echo "(patch carried over with a three-way merge)"; fi
 rc=0
 for id in "$@"; do
   VERIF_REPO="$wt" /verif/check "$id" --tier "${TIER:-quick}" 2>&1 | grep -v '^   ' | tail -${LINES_SHOWN:-6}
